@@ -333,6 +333,18 @@ def validate_traces_parallel(trace_module, cfg, traces, shards=8, timeout=1800, 
             agg.violated, agg.errtext = r.violated, r.errtext
     return rejected, agg
 
+
+def assert_binding_live(run, trace_module, cfg, trace, corrupt, what):
+    """Demonstrates on every run that the trace specification constrains the recorded fields: a copy of a trace the
+    specification accepted, with one field corrupted, must be rejected.  Otherwise the binding is vacuous: exit 2."""
+    import copy
+    bad = copy.deepcopy(trace)
+    corrupt(bad)
+    rej, r = validate_traces(trace_module, cfg, [bad])
+    if not rej and not r.violated:
+        raise MachineryError("binding not live: %s accepted a trace with %s" % (trace_module, what))
+    run.extra.setdefault("binding_selftests", []).append({"trace_spec": trace_module, "corruption": what, "rejected_at": list(rej[0]) if rej else str(r.violated)})
+
 # --------------------------------------------------------------------------
 # known findings
 # --------------------------------------------------------------------------
